@@ -94,6 +94,11 @@ def run_unit(unit, acc):
             if unit["nsamp"] >= 3:
                 for sc in ([0, 1, 0, 1], [0, 1, 1, 0], [1, 0, 1, 1]):
                     check_case(dict(nsamp=unit["nsamp"], pres=pat, cats=ci, style="t4", variant=ci % 2, seed=_SEED[0], scenes=sc[:unit["nsamp"]]), acc)
+            # the sample table is not in chronological order (rows keep their place: frame i is row i)
+            if unit["nsamp"] >= 3:
+                for perm in ([2, 0, 1, 3], [0, 3, 1, 2], [3, 2, 1, 0]):
+                    pm = [p_ for p_ in perm if p_ < unit["nsamp"]]
+                    check_case(dict(nsamp=unit["nsamp"], pres=pat, cats=ci, style="t4", variant=ci % 2, seed=_SEED[0], ts_perm=pm), acc)
             # tilted ego (roll / pitch / height), one sensor variant
             check_case(dict(nsamp=unit["nsamp"], pres=pat, cats=ci, style="t4", variant=ci % 2, seed=_SEED[0], tilt=True), acc)
 
@@ -118,7 +123,11 @@ def check_case(case, acc):
         ego = egos[k % len(egos)]
         if case.get("tilt"):
             ego = (ego[0], ego[1], 0.3 + 0.1 * k, ego[2], 0.05 - 0.02 * k, -0.04 + 0.03 * k)
-        samples.append(dict(ts=1000000 + 100000 * k, ego=ego, anns=anns))
+        tsk = 1000000 + 100000 * (case["ts_perm"][k] if case.get("ts_perm") else k)
+        smp = dict(ts=tsk, ego=ego, anns=anns)
+        if case["variant"]:   # the sensor data of a key frame is stamped a little before / after the sample itself
+            smp.update(lidar_ts=tsk - 40000, cam_ts=tsk + 13000)
+        samples.append(smp)
     if _DIR[0] is None or not os.path.isdir(_DIR[0]):
         _DIR[0] = scratch.new_dir("c16")
     root = os.path.join(_DIR[0], "ds")
@@ -128,7 +137,7 @@ def check_case(case, acc):
         acc.sample(case)
 
     for task, fid, merge in LOADS:
-        if case.get("scenes") and task == "tracking":
+        if (case.get("scenes") or case.get("ts_perm")) and task == "tracking":
             continue   # what a track's past is across scene boundaries is not specified
 
         def bad(sig, msg):
